@@ -651,6 +651,21 @@ impl<K: Ord, V, const ORD: u8> SlotMap<K, V, ORD> {
         }
         best.map(|b| self.slot(b))
     }
+    /// IndexMap::split_off(at): the entries [at..] move to the returned map, self keeps [..at]
+    pub fn split_off(&mut self, at: usize) -> Self {
+        assert!(at <= self.len, "split_off index out of bounds");
+        let mut out = Self::default();
+        let mut i = 0;
+        while i < CAP {
+            if i >= at && i < self.len {
+                out.items[out.len] = self.items[i].take();
+                out.len += 1;
+            }
+            i += 1;
+        }
+        self.len = at;
+        out
+    }
     /// IndexMap::get_index
     pub fn get_index(&self, i: usize) -> Option<(&K, &V)> {
         if i < self.len {
